@@ -62,8 +62,16 @@ type Obs struct {
 	Count    int64            `json:"count"`
 	Update   []int64          `json:"update"`
 	Delete   []int64          `json:"delete"`
-	Errs     []string         `json:"errs"`
+	// Same: further finishers that must touch exactly the selected rows (Pluck, Scan into another
+	// type, Rows, FindInBatches, Updates(map), UpdateColumn), in the order of sameKinds;
+	// One: First / Last / Take, the id of the record returned ([] = ErrRecordNotFound)
+	Same [][]int64 `json:"same"`
+	One  [][]int64 `json:"one"`
+	Errs []string  `json:"errs"`
 }
+
+var sameKinds = []string{"pluck", "scan", "rows", "batches", "updates_map", "update_column"}
+var oneKinds = []string{"first", "last", "take"}
 
 var names = []string{"a", "b", "ab", "c d", "x"}
 var nicks = []string{"n1", "n2", "a"}
@@ -203,6 +211,75 @@ func (e *env) run(orig Input) Obs {
 		tx = tx.Where(inline[0], inline[1:]...)
 	}
 	fail("count", tx.Model(&whr.T{}).Count(&o.Count).Error)
+	// the other reading finishers
+	sorted := func(ids []int64) []int64 {
+		out := append([]int64{}, ids...)
+		sort.Slice(out, func(i, j int) bool { return out[i] < out[j] })
+		return out
+	}
+	whole := func() *gorm.DB {
+		tx, inline := build()
+		if len(inline) > 0 {
+			tx = tx.Where(inline[0], inline[1:]...)
+		}
+		return tx
+	}
+	{
+		var ids []int64
+		fail("pluck", whole().Model(&whr.T{}).Pluck("id", &ids).Error)
+		o.Same = append(o.Same, sorted(ids))
+		var dto []struct{ ID int64 }
+		fail("scan", whole().Model(&whr.T{}).Scan(&dto).Error)
+		ids = nil
+		for _, d := range dto {
+			ids = append(ids, d.ID)
+		}
+		o.Same = append(o.Same, sorted(ids))
+		ids = nil
+		rows, err := whole().Model(&whr.T{}).Rows()
+		fail("rows", err)
+		if err == nil {
+			for rows.Next() {
+				var t whr.T
+				fail("scanrows", db.ScanRows(rows, &t))
+				ids = append(ids, t.ID)
+			}
+			rows.Close()
+		}
+		o.Same = append(o.Same, sorted(ids))
+		ids = nil
+		var batch []whr.T
+		tx, inline := build()
+		if len(inline) > 0 {
+			tx = tx.Where(inline[0], inline[1:]...)
+		}
+		fail("batches", tx.FindInBatches(&batch, 3, func(_ *gorm.DB, _ int) error {
+			for _, t := range batch {
+				ids = append(ids, t.ID)
+			}
+			return nil
+		}).Error)
+		o.Same = append(o.Same, sorted(ids))
+		for _, k := range oneKinds {
+			var t whr.T
+			tx, inline := build()
+			var err error
+			switch k {
+			case "first":
+				err = tx.First(&t, inline...).Error
+			case "last":
+				err = tx.Last(&t, inline...).Error
+			default:
+				err = tx.Take(&t, inline...).Error
+			}
+			if err == gorm.ErrRecordNotFound {
+				o.One = append(o.One, []int64{})
+			} else {
+				fail(k, err)
+				o.One = append(o.One, []int64{t.ID})
+			}
+		}
+	}
 	// Update marks rows; AllowGlobalUpdate so that condition-free chains run too
 	if orig.PK != 0 {
 		in = orig // the primary-key unit now comes from the model value
@@ -219,6 +296,22 @@ func (e *env) run(orig Input) Obs {
 	o.Update = []int64{}
 	fail("marked", db.Raw("SELECT id FROM ts WHERE mark = 1 ORDER BY id").Scan(&o.Update).Error)
 	fail("unmark", db.Exec("UPDATE ts SET mark = 0").Error)
+	for _, k := range []string{"updates_map", "update_column"} {
+		tx, inline = build()
+		if len(inline) > 0 {
+			tx = tx.Where(inline[0], inline[1:]...)
+		}
+		tx = tx.Session(&gorm.Session{AllowGlobalUpdate: true}).Model(modelValue)
+		if k == "updates_map" {
+			fail(k, tx.Updates(map[string]interface{}{"mark": 1}).Error)
+		} else {
+			fail(k, tx.UpdateColumn("mark", 1).Error)
+		}
+		var ids []int64
+		fail("marked", db.Raw("SELECT id FROM ts WHERE mark = 1 ORDER BY id").Scan(&ids).Error)
+		o.Same = append(o.Same, append([]int64{}, ids...))
+		fail("unmark", db.Exec("UPDATE ts SET mark = 0").Error)
+	}
 	// Delete inside a transaction that is rolled back
 	o.Delete = []int64{}
 	t := db.Begin()
@@ -277,7 +370,15 @@ func term(orig Input, o Obs) string {
 	}
 	return lib.App("mk_case", whr.GTable(in.Atoms, o.Texts), whr.GCalls(in.Chain, byID), lib.List(rows),
 		lib.Str(o.WhereSQL), lib.ZList(o.Find), lib.Z(o.Count), lib.ZList(o.Update), lib.ZList(o.Delete),
-		lib.Z(int64(len(o.Errs))))
+		zlists(o.Same), zlists(o.One), lib.Z(int64(len(o.Errs))))
+}
+
+func zlists(l [][]int64) string {
+	parts := make([]string, len(l))
+	for i, x := range l {
+		parts[i] = lib.ZList(x)
+	}
+	return lib.List(parts)
 }
 
 // pickPK: a row id that no `id = k` atom of the case already names (two atoms with one text
